@@ -89,7 +89,9 @@ func (t *tr) mkVal(ty *typ, e string) *val {
 	switch ty.k {
 	case kZ, kFe:
 		return &val{t: ty, c: t.newCell(e, "", oLocal)}
-	case kBool, kInt, kZList, kArr, kSlice, kByte:
+	case kSlice:
+		return &val{t: ty, e: e, spare: true} // (a callee may return a slice with spare capacity, e.g. its own parameter)
+	case kBool, kInt, kZList, kArr, kByte:
 		return &val{t: ty, e: e}
 	case kStruct:
 		return &val{t: ty, o: t.newObject(ty.sd, e, oLocal)}
@@ -229,8 +231,23 @@ func (t *tr) callNamed(pn, key string, recv *val, ce *ast.CallExpr) callRes {
 		for i := range sm.resAlias {
 			t.protect(argv[i], why)
 		}
+		var via []*val
+		for i := range sm.resAlias {
+			via = append(via, argv[i])
+		}
 		for _, v := range vals {
 			t.protect(v, why)
+			// provenance, so that a caller that returns v in turn records the aliasing too
+			switch {
+			case v.c != nil:
+				c, old := v.c, v.c.via
+				t.log = append(t.log, logEnt{undo: func() { c.via = old }})
+				c.via = append(append([]*val{}, old...), via...)
+			case v.o != nil:
+				o, old := v.o, v.o.via
+				t.log = append(t.log, logEnt{undo: func() { o.via = old }})
+				o.via = append(append([]*val{}, old...), via...)
+			}
 		}
 		return vals
 	}
@@ -282,7 +299,33 @@ func (t *tr) callNamed(pn, key string, recv *val, ce *ast.CallExpr) callRes {
 
 // external: functions that are not translated (loops, other packages'
 // algorithms, library code) and are mapped to the names the hand models use.
+// externalSha: fingerprints of the bodies of the functions that are NOT translated
+// but replaced by a name of the hand models (below).  An edit of such a body
+// changes what the Go code computes without changing the generated files: it
+// must be re-validated against the model (and the fingerprint updated).
+var externalSha = map[string]string{
+	"babyjub.Blake512":               "925a4145528153169e74bcf8cb2ea1f7",
+	"babyjub.Point.Projective":       "78aff38ae3481c46fec724167cc1482a",
+	"babyjub.PointProjective.Affine": "f5cc8107919d6d445e75143a5315c388",
+	"utils.HexDecodeInto":            "02e9a1e7240d31567f3f7db6381abac1",
+}
+
+func (t *tr) checkExternal(pn, key string) {
+	want, ok := externalSha[pn+"."+key]
+	if !ok {
+		return
+	}
+	fd := t.g.pkgs[pn].funcs[key]
+	if fd == nil || fd.Body == nil {
+		t.fail("external function %s.%s not found", pn, key)
+	}
+	if fp := fingerprint(fd); fp != want {
+		t.fail("the untranslated function %s.%s changed (fingerprint %s, recorded %s): its model must be re-validated", pn, key, fp, want)
+	}
+}
+
 func (t *tr) external(pn, key string, recv *val, ce *ast.CallExpr) (callRes, bool) {
+	t.checkExternal(pn, key)
 	one := func(v *val) (callRes, bool) { return callRes{vals: []*val{v}}, true }
 	bytesArg := func(i int) string {
 		v := t.eval(ce.Args[i])
